@@ -90,15 +90,15 @@ def _find(world: World, token: bytes) -> tuple[typing.Any, Sock | None, AutoOrig
     quick=[{"proxy": px, "flavour": "sync", "_pre": f"sw == {sw}"} for px in PROXIES for sw in range(3)],
     thorough=[{"proxy": px, "flavour": fl, "_pre": f"sw == {sw} and sc == {sc}"} for px in PROXIES for fl in ("sync", "async")
               for sw in range(3) for sc in range(4)],
-    example=dict(sc=1, port=0, sw=1, prefer_h2=True, sni=False, diff=0),
-    require=("tls", "plain", "h2-spoken", "h1-spoken", "second-request-new-connection"),
+    example=dict(sc=1, port=0, sw=1, prefer_h2=True, sni=False, diff=0, tgt=True),
+    require=("tls", "plain", "h2-spoken", "h1-spoken", "second-request-new-connection", "raw-target"),
     timeout={"quick": 300, "thorough": 900},
-    symbolic="scheme in {http,https,ws,wss}; port in {absent, default, other}; (http1,http2) switches; server ALPN preference; sni_hostname set or not; which component the second origin differs in",
+    symbolic="scheme in {http,https,ws,wss}; port in {absent, default, other}; (http1,http2) switches; server ALPN preference; sni_hostname set or not; whether the requests carry the `target` extension (a raw request target); which component the second origin differs in",
     bounds="two sequential requests per run; proxy mode per shard (none, http proxy, https proxy, socks5)",
     outside="more than two origins per run; UDS; proxies with authentication (C11)",
     stubs=("AutoOrigin speaks h2 iff the client sends the HTTP/2 preface; ALPN selection by server preference among offered",),
 )
-def matrix(sc: int, port: int, sw: int, prefer_h2: bool, sni: bool, diff: int) -> None:
+def matrix(sc: int, port: int, sw: int, prefer_h2: bool, sni: bool, diff: int, tgt: bool) -> None:
     """
     pre: 0 <= sc <= 3 and 0 <= port <= 2 and 0 <= sw <= 2 and 0 <= diff <= 2
     post: _
@@ -111,12 +111,13 @@ def matrix(sc: int, port: int, sw: int, prefer_h2: bool, sni: bool, diff: int) -
     dv = ladder(diff, 0, 2)
     prefer = "h2" if prefer_h2 else "http/1.1"
     use_sni = bool(sni)
-    with concrete(scheme, pmode, http1, http2, dv, prefer, use_sni):
-        _matrix(is_async, proxy, scheme, pmode, http1, http2, dv, prefer, use_sni)
+    raw = bool(tgt)
+    with concrete(scheme, pmode, http1, http2, dv, prefer, use_sni, raw):
+        _matrix(is_async, proxy, scheme, pmode, http1, http2, dv, prefer, use_sni, raw)
 
 
 def _matrix(is_async: bool, proxy: str, scheme: str, pmode: int, http1: bool, http2: bool, dv: int,
-            prefer: str, use_sni: bool) -> None:
+            prefer: str, use_sni: bool, raw_target: bool = False) -> None:
     vrt.new_runtime(clock=50)
     world = World(proxy, prefer)
     kw: dict[str, typing.Any] = {"http1": http1, "http2": http2}
@@ -148,11 +149,18 @@ def _matrix(is_async: bool, proxy: str, scheme: str, pmode: int, http1: bool, ht
     else:
         scheme2, host2 = scheme, "a.test"
         url2, eff2 = f"{scheme}://a.test:{eff1 + 1}/tok2", eff1 + 1
-    ext = {"sni_hostname": "sni.test"} if use_sni else {}
+    # one extensions mapping, handed to both requests (a caller's shared defaults): httpcore must only read it
+    ext: dict[str, typing.Any] = {"timeout": {"pool": 0, "read": 9, "connect": 9, "write": 9}}
+    if use_sni:
+        ext["sni_hostname"] = "sni.test"
 
     seen_origins = []
     for (url, sch, host, eff, tok) in ((url1, scheme, "a.test", eff1, b"tok1"), (url2, scheme2, host2, eff2, b"tok2")):
-        o = api.request(pool, "GET", url, extensions=dict(ext, timeout={"pool": 0, "read": 9, "connect": 9, "write": 9}))
+        if raw_target:
+            # the documented `target` extension replaces the request target only - never where the request goes
+            ext["target"] = b"/raw-" + tok
+            P.cover("raw-target")
+        o = api.request(pool, "GET", url, extensions=ext)
         if not P.check(o.ok, "request-ok", lambda: f"route:{proxy}:{sch}:request-failed:{o.kind()}"):
             return
         label, sock, origin = _find(world, tok)
@@ -178,8 +186,10 @@ def _matrix(is_async: bool, proxy: str, scheme: str, pmode: int, http1: bool, ht
             tls_layers = list(sock.tls)
         else:  # forwarded through the proxy in absolute form
             P.check(not secure, "forward-only-for-plain-http", sig + ":secure-request-forwarded")
-            want_abs = url.encode() if not url.endswith("/") else url.encode()
-            P.check(label[2] == want_abs, "absolute-form-names-url", lambda: sig + ":absolute-form")
+            want_abs = url.encode()
+            if raw_target:
+                want_abs = url.encode()[: -len("/tok1")] + ext["target"]
+            P.check(label[2] == want_abs, "absolute-form-names-url", lambda: sig + ":absolute-form" + (":with-target-extension" if raw_target else ""))
             own = 1 if proxy == "https" else 0
             P.check(len(sock.tls) == own, "forward-tls-only-proxy-layer", sig + ":forward-tls")
             tls_layers = []
